@@ -161,6 +161,48 @@ def unknown_label_cases(run, rng, n):
         run.sample({"unknown_label_case": {k: v for k, v in c.items() if k != "vals"}})
 
 
+def aligned_run_cases(run, rng, n):
+    """order-sensitive reductions on values with leading (kept) axes, labels in sorted runs and chunk boundaries EXACTLY on run boundaries
+    (every group inside one block, one block along the leading axes): whatever plan the automatic choice takes, the reported position is
+    the position in the WHOLE array"""
+    from tools.lib import fuzz as Z
+
+    c = None
+    for _ in range(n):
+        ngroups = rng.randint(2, 5)
+        runs = [rng.randint(1, 4) for _ in range(ngroups)]
+        labels = [g for g, r in enumerate(runs) for _ in range(r)]
+        m = len(labels)
+        cuts = [sum(runs[:i]) for i in range(1, ngroups)]
+        pts = [0] + sorted(rng.sample(cuts, k=rng.randint(1, len(cuts)))) + [m]
+        bshape = [rng.randint(1, 3) for _ in range(rng.choice([0, 1, 1, 2]))]
+        func = rng.choice(["argmax", "argmin", "nanargmax", "nanargmin", "nanfirst", "nanlast"])
+        nvals = m
+        for b in bshape:
+            nvals *= b
+        vals = [float(rng.choice([-2, -1, 0, 1, 2, 2, 3])) for _ in range(nvals)]
+        c = {"func": func, "dtype": "float64", "bshape": bshape, "lshape": [m], "vals": vals,
+             "groupers": [{"shape": [m], "labels": labels, "dtype": "int64", "expected": rng.choice([None, list(range(ngroups))])}],
+             "engine": "numpy", "sort": True, "chunks": [[b] if rng.random() < 0.7 else [1] * b for b in bshape] + [[b - a for a, b in zip(pts, pts[1:])]],
+             "method": rng.choice([None, None, None, "cohorts", "map-reduce"]), "reindex": None, "split_every": None, "by_dask": False}
+        if c["groupers"][0]["expected"] is not None:
+            c["fill_value"] = -1
+        eager = Z.evaluate(c, False)
+        if eager[0] != "Ok":
+            continue
+        chunked = Z.evaluate(c, True)
+        run.count("aligned|" + str(c), True)
+        d = Z.compare(c, eager, chunked)
+        if d == "REFUSED":
+            run.extra["refused_cases"] = run.extra.get("refused_cases", 0) + 1
+        elif d:
+            run.violation({"property": "C06", "kind": "groups confined to blocks, leading axes: the chunked evaluation differs from the in-memory evaluation: " + d, "request": c,
+                           "in_memory": [eager[1].tolist(), [g.tolist() for g in eager[2]], eager[3]],
+                           "chunked": [chunked[1].tolist(), [g.tolist() for g in chunked[2]], chunked[3]] if chunked[0] == "Ok" else list(chunked)}, tag="aligned")
+    if c:
+        run.sample({"aligned_run_case": {k: v for k, v in c.items() if k != "vals"}})
+
+
 def run(run: C.Run):
     rng = random.Random(run.seed)
     proofs_ok = P.front(run, translators=("registry",))
@@ -173,6 +215,7 @@ def run(run: C.Run):
         run.violation({"property": "C06", "kind": "proof obligation no longer checks", "failed": P.failed_obligations(run)},
                       nofail=True, tag="obligation")
     unknown_label_cases(run, rng, 1500 if run.tier == "thorough" else 200)
+    aligned_run_cases(run, rng, 1500 if run.tier == "thorough" else 200)
     from tools.lib import fuzz as Z
     Z.run_stream(run, rng, 1500 if run.tier == "thorough" else 160, "C06",
                  funcs=["argmax", "argmin", "nanargmax", "nanargmin", "first", "last", "nanfirst", "nanlast"])
